@@ -1,5 +1,7 @@
 from __future__ import annotations
 
+from copy import copy
+
 import typing
 from abc import ABC
 from dataclasses import dataclass, field
@@ -100,6 +102,29 @@ class ExceptIf(ConclusionSelector):
             required_vars.update(conc._unique_variables_)
         return required_vars
 
+    def _rows_of_left_side_(self, left_values: Iterable[Dict[int, HashedValue]]) -> Iterable[Dict[int, HashedValue]]:
+        """
+        The rows of the refined rule for which the refinement is decided. A true row of the left side can leave one of the
+        left side's variables open (a disjunction whose true side does not mention it): it stands for one row per value
+        of that variable. When the refinement refers to such a variable it fires for some of these rows and not for
+        others, they are told apart before the refinement is asked.
+        """
+        of_the_refinement = {v.id_ for v in self.right._unique_variables_}
+        shared = [v.value for v in self.left._unique_variables_
+                  if not isinstance(v.value, Literal) and v.id_ in of_the_refinement]
+        for left_value in left_values:
+            if self.left._is_false_:
+                yield left_value
+                continue
+            rows = [left_value]
+            for variable in shared:
+                if variable._id_ not in left_value:
+                    rows = [{**row, **binding} for row in rows for binding in variable._evaluate__(copy(row))]
+            for row in rows:
+                # (evaluating a variable says nothing about the truth of the left side)
+                self.left._is_false_ = False
+                yield row
+
     def _evaluate__(self, sources: Optional[Dict[int, HashedValue]] = None, yield_when_false: bool = False) -> Iterable[Dict[int, HashedValue]]:
         """
         Evaluate the ExceptIf condition and yield the results.
@@ -111,7 +136,7 @@ class ExceptIf(ConclusionSelector):
 
         # constrain left values by available sources
         left_values = self.left._evaluate__(sources, yield_when_false=self._yield_when_false_)
-        for left_value in left_values:
+        for left_value in self._rows_of_left_side_(left_values):
 
             left_value.update(sources)
 
